@@ -133,6 +133,23 @@ def find_knn_scans(w: Walker) -> List[KnnScan]:
     return out
 
 
+def unclamp_k(w, G: Term):
+    """min(best_k, n_nodes) / min(best_k, n_nodes - 1) is best_k for every model fit can produce (a sample has at most
+    n - 1 neighbours): the view reads the clamp as best_k.  A clamp by anything else (the query batch, ...) is left alone."""
+    from .ir import substitute_view
+    bk = ("attr", G, "best_k")
+    nn = (("attr", G, "n_nodes"), ("call", ("builtin", "len"), (("attr", G, "nodes"),), ()))
+    mapping = {}
+    for ev in w.events:
+        for top in [x for x in (ev.target, ev.value) if x is not None] + list(ev.args or ()) + [g for g, _ in ev.guards]:
+            for t in subterms(top):
+                if t[0] == "min" and len(t) == 2 and isinstance(t[1], tuple) and len(t[1]) == 2 and bk in t[1]:
+                    other = [x for x in t[1] if x != bk][0]
+                    if other in nn or (other[0] == "bin" and other[1] == "-" and other[2] in nn and other[3] == ("const", 1)):
+                        mapping[t] = bk
+    return substitute_view(w, mapping) if mapping else w
+
+
 def report_missing_scan(rep, w: Walker, what: str, pre: str = "") -> bool:
     """No insertion scan was recognised.  If the function still allocates the k+1-slot buffers and writes a candidate
     into slot k inside a loop nest, the scan is there but its insertion step is malformed (test negated, step dropped,
